@@ -45,6 +45,10 @@ def templates():
     # a 1-D group whose only connection to the far layouts of the 2-D group is a chain: D->A->B->C is 3 steps
     T["long3"] = dict(nd=3, groups=[{'A': [0, 1, 2], 'B': [2, 1, 0], 'C': [2, 0, 1]}, {'D': [0, 2, 1]}],
                       procs=lambda p0, p1: [[p0, p1], p0], start='A')
+    # a fully replicated group (every process holds the whole field) next to the 2-D and a 1-D group: reaching it from the
+    # 2-D group takes a scatter/gather chain through the 1-D group
+    T["replicated0"] = dict(nd=3, groups=[{'v_parallel_2d': [0, 2, 1], 'mode_solve': [1, 2, 0]}, {'v_parallel_1d': [0, 2, 1]}, {'full': [0, 2, 1], 'full_t': [2, 1, 0]}],
+                            procs=lambda p0, p1: [[p0, p1], p0, []], start='mode_solve')
     T["four"] = dict(nd=4, groups=[{'flux_surface2': [0, 3, 1, 2], 'v_parallel': [0, 2, 1, 3], 'poloidal': [3, 2, 1, 0]},
                                    {'flux_surface1': [0, 3, 1, 2], 'z_surface': [2, 3, 1, 0], 'vr_contig1': [2, 1, 3, 0]}],
                      procs=lambda p0, p1: [[p0, p1], p0], start='flux_surface2')
